@@ -136,6 +136,8 @@ fn record_recovery(img: &Image, cfg: &CfgSpec, outer: &Recorded) -> Option<(Reco
         classes: Default::default(),
         excluded: 0,
         faults_hit: 0,
+        hard_faults_hit: 0,
+        layout: None,
     };
     Some((rec, init))
 }
